@@ -2,6 +2,7 @@ SPEC = {
     "id": "C16",
     "components": [
         {"comp": "datagrams", "module": "QV.Model.DatagramState", "quick": 1500, "thorough": 40000},
+        {"comp": "sim_c16", "module": "QV.Sys.MonC01", "quick": 60, "thorough": 1500},
     ],
     "assumptions": [
         "debug build semantics (usize underflow is a panic)",
